@@ -222,11 +222,18 @@ func TestVerif_C22_Display(t *testing.T) {
 				}
 				o := base
 				o.MaxDocDisplayCount, o.MaxMatchDisplayCount = lm.d, lm.m
-				for _, stream := range []bool{false, true} {
+				// 0: Search; 1: StreamSearch, events as they come; 2: StreamSearch with FlushWallTime: the events
+				// of all shards are collected and ranked before the display limits apply, so the reply has to
+				// be the ranked prefix like a Search's
+				for mode := 0; mode < 3; mode++ {
+					stream := mode == 1
 					var r c21Res
-					if !stream {
+					if mode == 0 {
 						r = c21Run(l.dir, context.Background(), zq, &o)
 					} else {
+						if mode == 2 {
+							o.FlushWallTime = time.Minute
+						}
 						agg := &zoekt.SearchResult{}
 						p := verifkit.Catch(func() {
 							err := l.dir.StreamSearch(context.Background(), zq, &o, zoekt.SenderFunc(func(ev *zoekt.SearchResult) {
@@ -244,7 +251,7 @@ func TestVerif_C22_Display(t *testing.T) {
 					}
 					ev := verifkit.M{"ev": "display", "cid": c.ID, "kind": "dir", "shard": 0, "q": q.JSON(), "mode": c21Mode(&o),
 						"ctx": o.NumContextLines, "back": tr.Len() + 1 - refLine, "outcome": r.outcome, "files": []verifkit.M{},
-						"maxdoc": lm.d, "maxmatch": lm.m, "stream": stream, "qs": zq.String() + " " + r.msg, "detail": corpus.DetailGeometry}
+						"maxdoc": lm.d, "maxmatch": lm.m, "stream": stream, "flush": mode == 2, "qs": zq.String() + " " + r.msg, "detail": corpus.DetailGeometry}
 					if r.res != nil {
 						ev["files"] = l.c.Files(l.idx, r.res, corpus.DetailGeometry)
 					}
